@@ -684,10 +684,11 @@ struct CGlueObjContainer<T, void, void> {
     // Add Context typedef to group containers
     // Create group container specializations
 
-    let gr_regex = Regex::new("\\s(?P<ret_tmp>([^\\s])RetTmp<CGlueCtx>)")?;
+    let gr_regex = Regex::new("(?P<ret_tmp>\\w+RetTmp<CGlueCtx>)")?;
 
     let header = group_container_regex(&groups)?.replace_all(&header, |caps: &Captures| {
         let ret_tmps = gr_regex.replace_all(&caps["ret_tmps"], "RustMaybeUninit<$ret_tmp>");
+        let ret_tmps_void = ret_tmps.replace("<CGlueCtx>", "<void>");
 
         format!(
             r"{declaration} {{
@@ -712,7 +713,7 @@ struct CGlueObjContainer<T, void, void> {
 template<typename CGlueInst>
 struct {group}Container<CGlueInst, void> {{
     typedef void Context;
-    CGlueInst instance;
+    CGlueInst instance;{ret_tmps_void}
 
     inline Context clone_context() noexcept {{}}
 
@@ -727,7 +728,8 @@ struct {group}Container<CGlueInst, void> {{
             declaration = &caps["declaration"],
             fields = &caps["fields"],
             group = &caps["group"],
-            ret_tmps = ret_tmps
+            ret_tmps = ret_tmps,
+            ret_tmps_void = ret_tmps_void
         )
     });
 
@@ -1059,19 +1061,14 @@ struct CGlueObjContainer) \{
 fn group_container_regex(groups: &[Group]) -> Result<Regex> {
     let typenames =
         Itertools::intersperse(groups.iter().map(|g| g.name.as_str()), "|").collect::<String>();
-    let typenames_lc = groups
-        .iter()
-        .map(|g| g.name.to_lowercase())
-        .collect::<Vec<_>>()
-        .join("|");
     Regex::new(&format!(
         r"(?P<declaration>template<typename CGlueInst, typename CGlueCtx>
 struct (?P<group>{})Container) \{{
     (?P<fields>CGlueInst instance;
     CGlueCtx context;)(?P<ret_tmps>(
-    ({})RetTmp ret_tmp_{};)*)
+    \w+RetTmp<CGlueCtx> ret_tmp_\w+;)*)
 \}};",
-        typenames, typenames, typenames_lc
+        typenames
     ))
     .map_err(Into::into)
 }
